@@ -173,10 +173,120 @@ fn part_a(ctx: &Arc<Ctx>) {
 	ctx.transition(cfgs.len() as u64);
 }
 
-fn part_b(ctx: &Arc<Ctx>) {
+/// part B payloads: the named ones plus (thorough: every length 0..=1200 / quick: 0..=40) and lengths 2^k-1, 2^k, 2^k+1
+/// (k = 9..=16 quick, 9..=22 thorough), each as a compressible and as an incompressible byte pattern
+fn sweep_payloads(thorough: bool) -> Vec<(String, Vec<u8>)> {
+	let mut v: Vec<(String, Vec<u8>)> = payloads().into_iter().map(|(n, p)| (n.to_string(), p)).collect();
+	let mut lens: Vec<usize> = (0..=if thorough { 1200 } else { 40 }).collect();
+	for k in 9..=if thorough { 22u32 } else { 16 } {
+		lens.extend([(1usize << k) - 1, 1 << k, (1 << k) + 1]);
+	}
+	for l in lens {
+		v.push((format!("{l} bytes text"), (0..l).map(|i| b"tile data, "[i % 11]).collect()));
+		v.push((format!("{l} bytes noise"), tilesets::lcg_bytes(l as u64 + 1, l)));
+	}
+	v
+}
+
+/// part C: chains of two conversions (the second starts from the first one's output container):
+/// (source compression, target1, force1, target2, force2) through the versatiles format in memory
+fn part_c(ctx: &Arc<Ctx>) {
+	let work = ct::WorkDir::new("c04c");
+	let rt = crate::memsource::runtime(4);
 	let ps = payloads();
+	let mut cfgs = vec![];
+	for src_comp in 0..3u8 {
+		for t1 in [None, Some(0u8), Some(1), Some(2)] {
+			for f1 in [false, true] {
+				for t2 in [None, Some(0u8), Some(1), Some(2)] {
+					for f2 in [false, true] {
+						for cont in [Cont::Versatiles, Cont::Pmtiles] {
+							if ctx.tier == crate::ctx::Tier::Quick && (cfgs.len() + src_comp as usize) % 4 != 0 {
+								cfgs.push(None);
+								continue;
+							}
+							cfgs.push(Some((src_comp, t1, f1, t2, f2, cont)));
+						}
+					}
+				}
+			}
+		}
+	}
+	let cfgs: Vec<_> = cfgs.into_iter().flatten().collect();
+	let (ctxr, rtr, wpath, psr, cfgr): (&Ctx, _, _, _, _) = (ctx, &rt, work.0.clone(), &ps, &cfgs);
+	par_for(cfgs.len(), |i| {
+		let (src_comp, t1, f1, t2, f2, cont) = cfgr[i];
+		let mid_comp = t1.unwrap_or(src_comp);
+		let out_comp = t2.unwrap_or(mid_comp);
+		let mut tiles = TileMap::new();
+		let mut decoded = TileMap::new();
+		for (j, (_, p)) in psr.iter().enumerate() {
+			tiles.insert((9, 255 + j as u32, 256), codec::encode_with(src_comp, p));
+			decoded.insert((9, 255 + j as u32, 256), p.clone());
+		}
+		let label = format!("{} chain {:?} -> {:?} force={f1} -> {:?} force={f2}", cont.name(), ct::comp_from_id(src_comp), t1.map(ct::comp_from_id), t2.map(ct::comp_from_id));
+		let case = json!({"chain": true, "cont": cont, "src_comp": src_comp, "t1": t1, "f1": f1, "t2": t2, "f2": f2});
+		ctxr.eval();
+		let step = |reader: Box<dyn TilesReaderTrait>, t: Option<u8>, f: bool, tag: &str| -> Result<ct::Written, String> {
+			let mut cp = TilesConverterParameters::new_default();
+			cp.tile_compression = t.map(ct::comp_from_id);
+			cp.force_recompress = f;
+			let mut conv = TilesConvertReader::new_from_reader(reader, cp).map_err(|e| format!("{e:#}"))?;
+			ct::write(rtr, cont, &mut conv, &wpath, &format!("k{i}{tag}"))
+		};
+		let src = MemSource::new("mem", tiles, TileFormat::PBF, ct::comp_from_id(src_comp));
+		let w1 = match step(Box::new(src), t1, f1, "a") {
+			Ok(w) => w,
+			Err(e) => return ctxr.violation(&format!("conversion fails: {}", super::c01::norm_msg(&e)), &format!("{label} (first step): {e}"), case),
+		};
+		let r1 = match ct::open(rtr, cont, &w1) {
+			Ok(r) => r,
+			Err(e) => return ctxr.violation("converted file cannot be opened", &format!("{label} (first step): {e}"), case),
+		};
+		let w2 = match step(r1, t2, f2, "b") {
+			Ok(w) => w,
+			Err(e) => return ctxr.violation(&format!("conversion fails: {}", super::c01::norm_msg(&e)), &format!("{label} (second step): {e}"), case),
+		};
+		ctxr.trace(2);
+		ctxr.transition(2);
+		match ct::independent_decode(cont, &w2) {
+			Err(e) => ctxr.violation(&format!("{}: converted file does not follow the layout: {}", cont.name(), super::c01::norm_msg(&e)), &format!("{label}: {e}"), case.clone()),
+			Ok(d) => {
+				if d.compression != Some(out_comp) {
+					ctxr.violation("output declares another compression than requested", &format!("{label}: file declares {:?}, expected {out_comp}", d.compression), case.clone());
+				}
+				let declared = d.compression.unwrap_or(out_comp);
+				for (k, p) in &decoded {
+					match d.tiles.get(k) {
+						None => ctxr.violation("converted output lacks a tile", &format!("{label}: {k:?}"), case.clone()),
+						Some(data) => {
+							if let Err(why) = really_encoded(declared, data, p) {
+								ctxr.violation("output tile, decoded with the declared compression, differs from the source payload", &format!("{label}: tile {k:?} ({} source bytes): {why}", p.len()), case.clone());
+							}
+						}
+					}
+				}
+			}
+		}
+		ct::cleanup(&w1);
+		ct::cleanup(&w2);
+		ctxr.nontrivial(fnv_str(&format!("{case}")));
+	});
+	ctx.outcome_n("two-step conversion chains", cfgs.len() as u64);
+	ctx.state(cfgs.len() as u64);
+}
+
+fn part_b(ctx: &Arc<Ctx>) {
+	let ps = sweep_payloads(ctx.tier == crate::ctx::Tier::Thorough);
+	ctx.outcome_n("part B payloads", ps.len() as u64);
 	let comps = [TileCompression::Uncompressed, TileCompression::Gzip, TileCompression::Brotli];
-	for (pname, p) in &ps {
+	let (ctx, psr): (&Ctx, _) = (ctx, &ps);
+	// largest payloads first (they dominate the run time)
+	let mut order: Vec<usize> = (0..ps.len()).collect();
+	order.sort_by_key(|i| std::cmp::Reverse(psr[*i].1.len()));
+	let order = &order;
+	par_for(ps.len(), |pi| {
+		let (pname, p) = &psr[order[pi]];
 		for &inc in &comps {
 			let input = codec::encode_with(ct::comp_id(inc), p);
 			// compress / decompress / recompress
@@ -242,18 +352,19 @@ fn part_b(ctx: &Arc<Ctx>) {
 				}
 			}
 		}
-	}
+	});
 	let _ = CompressionGoal::UseBestCompression;
 }
 
 pub fn run(ctx: Arc<Ctx>) {
 	ctx.rule(
 		"part A: every (source compression, target in {keep,none,gzip,brotli}, force flag, target format) = 120 conversions (MBTiles only for its legal pairs) over 5 payloads (1 B, 2 KiB compressible, 70 KiB incompressible, 100 KiB and 300 KiB highly compressible) through TilesConvertReader + the real writer on a multi-thread runtime; \
-		 output tiles decoded independently with the compression the output declares. part B: compress/decompress/recompress over 3x3 pairs and optimize_compression over 3 inputs x 8 allowed sets x 3 goals x payloads. non-trivial = configurations that actually re-encode",
+		 output tiles decoded independently with the compression the output declares. part B: compress/decompress/recompress over 3x3 pairs and optimize_compression over 3 inputs x 8 allowed sets x 3 goals x (5 named payloads + every length 0..=40 quick / 0..=1200 thorough and 2^k-1,2^k,2^k+1 for k=9..16 quick / 9..22 thorough, each as text and as noise). part C: chains of two conversions (source compression x target1 x force1 x target2 x force2 x {versatiles, pmtiles}; every 4th in quick, all 384 in thorough), the second reading the first one's output. non-trivial = configurations that actually re-encode",
 	);
 	ctx.assume("flate2 and brotli crates are the trusted base used to build the source tiles and to decode the outputs");
 	part_a(&ctx);
 	part_b(&ctx);
+	part_c(&ctx);
 	ctx.exhaustive(true);
 }
 
